@@ -154,7 +154,7 @@ def build_case(r, tier):
             case["pre"]["tee_target.out"] = "PRE-EXISTING LINE\n"
     elif mode in ("dsl", "pipe"):
         stmts = [
-            ("tee", "tee {R} {T}, $*", "tee > stdout, $*"),
+            ("tee", "tee {R} {T}, $*", "emit mapsum($*, {})"),
             ("emit", "emit {R} {T}, $*", "emit $*"),
             ("emit_lashed", "emit {R} {T}, mapexcept($*, \"w\")", "emit mapexcept($*, \"w\")"),
             ("emitp", "emitp {R} {T}, mapsum({\"id\": $id}, {\"sub\": {\"v\": $v, \"w\": $w}})", "emitp mapsum({\"id\": $id}, {\"sub\": {\"v\": $v, \"w\": $w}})"),
